@@ -250,7 +250,8 @@ def _process_func(u, header_line, lines, mutate=None):
                 raise cxx.ExtractError('cannot lower initialiser: ' + item)
             nm, arg = m.group(1), m.group(2).strip()
             if nm.endswith('_') or inits_mode == 'lower-all':
-                stmts.append('this->%s = %s;' % (nm, arg if arg else '0'))
+                # `m()` value-initialises the member (zero for scalars and aggregates): memset, since the member may be a struct
+                stmts.append(('this->%s = %s;' % (nm, arg)) if arg else ('memset(&this->%s, 0, sizeof(this->%s));' % (nm, nm)))
             else:
                 stmts.append('/* base %s(%s) */' % (nm, arg))
         itext, _ = lower.lower_body(' '.join(stmts), cls=None, log=log)
